@@ -295,9 +295,16 @@ def uncertainty_tokenizer(input_string: str) -> Generator[TokenInfo, None, None]
             )
             std_dev = next(toklist)
             if "." not in std_dev.string:
+                # Concise notation: the digits in parentheses count units of the
+                # last digit of the nominal value, e.g. 1.234(5) = 1.234 +/- 0.005
+                mantissa = nominal_value.string.lower().split("e")[0]
+                n_decimals = len(mantissa.split(".")[1]) if "." in mantissa else 0
+                digits = std_dev.string.zfill(n_decimals + 1)
+                if n_decimals:
+                    digits = digits[:-n_decimals] + "." + digits[-n_decimals:]
                 std_dev = tokenize.TokenInfo(
                     type=std_dev.type,
-                    string="0." + std_dev.string,
+                    string=digits,
                     start=std_dev.start,
                     end=std_dev.end,
                     line=line,
